@@ -1012,8 +1012,11 @@ def c15_scenario(rnd, k):
     if gitignore:
         allf[".gitignore"] = "\n".join(gitignore) + "\n"
     paths = sorted(files)
+    # globs may also point INTO hidden or git-ignored places (a literal leading directory, an explicit path): the walk never
+    # yields those files, so such a glob must not bring them into scope
+    shy = sorted(p for p in extras if p != "README.txt")
     def some_glob():
-        p = rnd.choice(paths)
+        p = rnd.choice(shy) if shy and rnd.random() < 0.25 else rnd.choice(paths)
         ext = p.rsplit(".", 1)[1]
         d = p.rsplit("/", 1)[0] if "/" in p else None
         forms = ["*." + ext, p, "**/" + p.rsplit("/", 1)[-1], "**/*." + ext]
@@ -1222,6 +1225,54 @@ def c17_run(rep, tier, seed, tr):
                         "function_paths": [l for i, l in dumps["unset"]["labels"] if i in set(dumps["unset"]["fns"])][:40]})
     rep.extra["lua_mode_arms"] = tr["lua"]
     c17_escape(rep)
+    c17_many_blocks(rep, tier)
+
+
+def c17_many_blocks(rep, tier):
+    """the environment every block's script sees when MANY scripted blocks share one run (more blocks than worker threads, so
+    interpreters that are pooled, recycled or shared would be handed to later blocks): each of them must see exactly what the
+    single block of a fresh run sees in that mode, and in the sandboxed modes none of the loaders / libraries"""
+    import cli as C, lua_caps as L, shutil as _sh
+    rep.rules.append("72 (thorough: 240) scripted blocks over 3 files in one run per mode (unset, garbage, safe): every block's fingerprint (global names with kinds at load time and inside validate(), outcome of 8 escape attempts) equals the fingerprint of a single-block run in the same mode")
+    mprobe = open(os.path.join(K.ROOT, "tools", "lua", "mprobe.lua")).read()
+    per_file = 24 if tier == "quick" else 80
+    def run(mode, nfiles, nblocks):
+        root = C.tmp_root()
+        try:
+            files = [("mprobe.lua", mprobe), ("secret.lua", "return \"secret-value\"\n")]
+            for f in range(nfiles):
+                files.append((f"m{f}.py", "".join(f"# <block name=\"p{f}_{b}\" check-lua=\"mprobe.lua\">\nx{b}\n# </block>\n" for b in range(nblocks))))
+            C.materialise(root, files)
+            env = {"BLOCKWATCH_TERMINAL_MODE": "1"}
+            if mode is not None:
+                env["BLOCKWATCH_LUA_MODE"] = mode
+            return C.run_bw(root, [f"m{f}.py" for f in range(nfiles)], env=env, timeout=300)
+        finally:
+            _sh.rmtree(root, ignore_errors=True)
+    def messages(res):
+        try:
+            obj = json.loads(res["stderr"])
+            return [d["data"]["lua_error"] for ds in obj.values() for d in ds]
+        except Exception:
+            return None
+    for name, mode in [("unset", None), ("garbage", "totally-unknown"), ("safe", "safe")]:
+        single = messages(run(mode, 1, 1))
+        res = run(mode, 3, per_file)
+        many = messages(res)
+        rep.evaluations += 1
+        rep.traces += 1
+        if not single or many is None or len(many) != 3 * per_file:
+            rep.violation({"property": rep.prop, "component": f"many blocks ({name})", "what": "the fingerprint script did not report once per block",
+                           "single": single, "reports": None if many is None else len(many), "cli": {k: (v[:2000] if isinstance(v, str) else v) for k, v in res.items()}})
+            continue
+        rep.nontrivial.add("many:" + name)
+        odd = sorted(set(m for m in many if m != single[0]))
+        leaked = [m for m in many + single if name != "safe" and m.count("esc[]") != 2]
+        rep.count(f"many-blocks:{name}:{len(many)}blocks:" + ("all-equal-fresh" if not odd else "DIFFER"))
+        if odd or leaked:
+            rep.violation({"property": rep.prop, "component": f"many blocks ({name})",
+                           "what": "a block's script saw another environment than the script of a fresh single-block run (or a sandboxed script reached a loader / library)",
+                           "mode": mode, "fresh_single_block": single[0], "differing_fingerprints": odd[:3], "blocks_differing": sum(1 for m in many if m != single[0]), "of": len(many)})
 
 
 def c17_escape(rep):
@@ -1365,6 +1416,7 @@ def c19_scenario(rnd, k, fault_kind):
     nblocks = rnd.randint(1, 5)
     files, plan, asyncs, patterns = {}, {}, [], []
     fault_at = rnd.randrange(nblocks) if fault_kind else None
+    made = []
     for b in range(nblocks):
         p = f"{rnd.choice(['', 'src/'])}a{b % 2}.{rnd.choice(['py', 'sh'])}"
         cond = rnd.choice(["must be sorted", "no TODO left", "mentions <b> & co", "it's fine", "say \\ twice", "ünï → cond", "a=b; c"]) + f" #{k}.{b}"
@@ -1378,11 +1430,25 @@ def c19_scenario(rnd, k, fault_kind):
             attrs += f" check-ai-pattern='{pat}'"
             patterns.append(pat)
         body = "".join(rnd.choice(AI_CONTENT) + "\n" for _ in range(rnd.randint(0, 3)))
+        # twins: a later block may repeat the condition and the body of an earlier one (same or another file), with its own
+        # pattern or none - every block still gets its own request carrying its own extract
+        if made and rnd.random() < 0.35 and not (fault_kind and b == fault_at):
+            cond, body = rnd.choice(made)
+            attrs = f" check-ai=\"{cond}\"" if "\"" not in cond else f" check-ai='{cond}'"
+            if rnd.random() < 0.5:
+                pat = rnd.choice(["k=(?P<value>\\w+)", "k=\\w+", "nomatch\\d{5}", "(?P<value>\\S+)$"])
+                attrs += f" check-ai-pattern='{pat}'"
+                patterns.append(pat)
+        made.append((cond, body))
         files[p] = files.get(p, "") + f"# <block{attrs}>\n{body}# </block>\n"
         if fault_kind and b == fault_at:
             if fault_kind not in ("no-key", "refused"):
                 plan[cond] = {"fault": fault_kind}
             asyncs.append({"v": "check-ai", "arg": cond, "out": {"err": "ai-error"}})
+        elif cond in plan:
+            # a twin: the endpoint answers by condition, so it gets its elder's answer (or its elder's fault)
+            out = {"err": "ai-error"} if fault_kind in ("no-key", "refused") or "fault" in plan[cond] else {"reply": plan[cond]["reply"]}
+            asyncs.append({"v": "check-ai", "arg": cond, "out": out})
         else:
             reply = rnd.choice(AI_REPLIES)
             plan[cond] = {"reply": reply}
